@@ -85,3 +85,25 @@ Proof.
   intros w o h. unfold read_plan. destruct (detect_h w o h) as [[d| |u] h']; cbn [fst]; split; intros H;
     try discriminate H; try reflexivity; try (intros ?; discriminate); exfalso; apply (H d); reflexivity.
 Qed.
+
+(* ------------------------------------------------------------------ archive extensions (regenerated table) *)
+(* every extension shutil.unpack_archive is documented to know must be in the table _resolve_fname consults *)
+Definition KNOWN_ARCHIVE_EXTS : list str :=
+  [bs "zip"%bs; bs "tar"%bs; bs "tar.gz"%bs; bs "tgz"%bs; bs "tar.bz2"%bs; bs "tbz2"%bs; bs "tar.xz"%bs; bs "txz"%bs].
+Lemma archive_exts_complete : subset_str KNOWN_ARCHIVE_EXTS ARCHIVE_EXTS = true.
+Proof. vm_compute. reflexivity. Qed.
+Lemma mem_str_In' : forall x l, In x l -> mem_str x l = true.
+Proof. intros x l H. unfold mem_str. apply existsb_exists. exists x. split; [exact H|apply str_eqb_refl]. Qed.
+(* hence a plain local name ending in one of them is unpacked as an archive, whatever the archive option *)
+Lemma resolve_known_archive : forall dd ex stem e a,
+  In e KNOWN_ARCHIVE_EXTS -> plain_name (stem ++ dot :: e) = true ->
+  resolve dd ex (FStr (stem ++ dot :: e)) a = DArchive (stem ++ dot :: e) (match a with AStr s => Some s | _ => None end).
+Proof.
+  intros dd ex stem e a He Hp. rewrite resolve_spec by exact Hp.
+  assert (Hin : has_archive_ext (stem ++ dot :: e) = true).
+  { unfold has_archive_ext. apply existsb_exists. exists e. split.
+    - pose proof archive_exts_complete as C. unfold subset_str in C. rewrite forallb_forall in C.
+      specialize (C e He). unfold mem_str in C. apply existsb_exists in C. destruct C as [y [Hy Ey]]. apply str_eqb_eq in Ey. subst y. exact Hy.
+    - unfold endswith. rewrite rev_app_distr. apply startswith_self_app. }
+  rewrite Hin, orb_true_r. reflexivity.
+Qed.
